@@ -175,6 +175,63 @@ def analyse(sim, cfg, which=("K", "M")):
     return out
 
 
+def large_group(case):
+    """Spectrum.tla LargeConfigs: a structured grid with more than 2^15 elements; sparse checks only"""
+    from EasyFEA import Models, Simulations
+    from EasyFEA.FEM import ElemType
+    from harness.lifecycle import _grid_mesh
+
+    c = case["cfg"]
+    tag = f"{c['phys']}2D/{c['elem']}/large"
+    out = []
+    with quiet():
+        mesh = _grid_mesh(c["cells"], c["cells"], ElemType(c["elem"]))
+        if c["phys"] == "thermal":
+            sim = Simulations.Thermal(mesh, Models.Thermal(k=2.0, c=1.0, thickness=1.0), verbosity=False)
+        else:
+            sim = Simulations.Elastic(mesh, Models.Elastic.Isotropic(2, E=10.0, v=0.25, planeStress=True, thickness=1.0), verbosity=False)
+        sim.rho = 2.0
+        K, C, M, F = sim.Get_K_C_M_F()
+    if mesh.Ne != case["elements"]:
+        from harness.core import MachineryError
+
+        raise MachineryError(f"large group: {mesh.Ne} elements built, the specification says {case['elements']}")
+    K = K.tocsr()
+    d = K.diagonal()
+    if (d <= 0).any():
+        out.append((f"K-zero-row/{tag}", f"K of {tag} ({mesh.Ne} elements) has {int((d <= 0).sum())} dofs with a zero diagonal entry: some elements contribute no stiffness"))
+    X = mesh.coord
+    dofn = sim.Get_dof_n()
+    if c["phys"] == "thermal":
+        modes = [np.ones(mesh.Nn)]
+        T = X[:, 0]
+        W = float(T @ (K @ T))
+        exp = float(Fraction(*case["unitFieldEnergy"]))
+        if abs(W - exp) > 1e-9 * exp:
+            out.append((f"K-energy/{tag}", f"energy of the field T = x on the unit square meshed with {mesh.Ne} {c['elem']} is {W}, exact k x area = {exp}"))
+    else:
+        tx, ty, rz = np.zeros((mesh.Nn, 2)), np.zeros((mesh.Nn, 2)), np.zeros((mesh.Nn, 2))
+        tx[:, 0], ty[:, 1] = 1.0, 1.0
+        rz[:, 0], rz[:, 1] = -X[:, 1], X[:, 0]
+        modes = [m.ravel() for m in (tx, ty, rz)]
+        u = np.zeros((mesh.Nn, 2))
+        u[:, 0] = X[:, 0]
+        W = float(u.ravel() @ (K @ u.ravel()))
+        exp = 10.0 / (1 - 0.25**2)  # eps_xx = 1 in plane stress: sigma_xx = E / (1 - v^2), unit area and thickness
+        if abs(W - exp) > 1e-9 * exp:
+            out.append((f"K-energy/{tag}", f"energy of the field u = (x, 0) on the unit square meshed with {mesh.Ne} {c['elem']} is {W}, exact E / (1 - v^2) = {exp}"))
+    for m in modes:
+        if np.abs(K @ m).max() > 1e-9 * np.abs(K.data).max() * max(1.0, np.abs(m).max()):
+            out.append((f"K-rigid/{tag}", f"a rigid / constant mode is not in the kernel of K of {tag}"))
+            break
+    Mm = (C if c["phys"] == "thermal" else M).tocsr()
+    idx = np.arange(0, Mm.shape[0], dofn)
+    tot = float(Mm[idx][:, idx].sum())
+    if abs(tot - 2.0) > 1e-9:
+        out.append((f"M-sum/{tag}", f"mass / capacity total of {tag} is {tot}, expected rho x measure = 2"))
+    return {"viol": [(k_, m_, {"case": case}) for k_, m_ in out], "n": 1, "keys": [("large", c["phys"], c["elem"])], "traces": 1}
+
+
 def _job(job):
     case, variant, which = job
     cfg = dict(case["cfg"])
@@ -200,6 +257,13 @@ def kernel_checks(ctx, which=("K", "M"), label="C02", thorough=None):
     if thorough:
         jobs += [(c, 1, which) for c in cases]
     ctx.pmap(_job, jobs, chunksize=1)
+    if "M" in which:
+        large = sorted(res.prints.get("LARGE", []), key=lambda c_: (c_["cfg"]["phys"], c_["cfg"]["elem"]))
+        if len(large) != 4:
+            from harness.core import MachineryError
+
+            raise MachineryError(f"Spectrum.tla emitted {len(large)} large configurations")
+        ctx.pmap(large_group, large, chunksize=1)
     ctx.section(label, configurations=len(cases), meshes_per_configuration=2 if thorough else 1, analysed=list(which))
     if cases:
         ctx.sample(cases[0])
